@@ -9,9 +9,9 @@ RULE = ('rrect correspondence: rr_confine (CornerRadii::confine via confine_radi
         'ra,rb in 0..16 exhaustively + random up to 60; oversized equal radii are confined back), p_rr_contig (rows and columns of contains() contiguous), '
         'p_rr_band (corner pixels vs the ideal quarter ellipse, half-pixel band).')
 PARTIAL = []
-ASSUMPTIONS = ['rrect confine: the theorem is over unbounded Z for all non-negative radii/sides; CornerRadii::confine multiplies radius * side in u32, so model and '
-               'code coincide while radius * side < 2^32 (e.g. both <= 65535; display-scale inputs are far inside). Beyond that the code overflows '
-               '(panic with overflow checks, wrong radii in release): not in the quantifier of C18, noted for C08',
+ASSUMPTIONS = ['rrect confine: C18_rrect_confine_sound is over unbounded Z for all non-negative radii/sides; C18_rrect_confine_sound_machine carries the '
+               'range hypothesis confine_arith_ok (u32 sums and products radius x side fit; C08_rrect_confine_arith_fits: both <= 65535 suffices). '
+               'All shape theorems carry rr_dom (rr_ok and rr_arith_ok, see the C05 rrect part)',
                'rrect half = ellipse: stated against rr_ellipse_contains, the model-private line-by-line copy of Ellipse::contains (center_2x, EllipseContains, '
                'diameter_to_threshold); compared with the real Ellipse by the suites rr_ellipse_pt / rr_ellipse_map']
 TRUSTED = ['rrect: hand-written model coq/Model/Rrect.v validated by differential testing, not proved equal to the Rust code']
